@@ -4,6 +4,7 @@
 -/
 import Pdlv.JavaSpec
 import Pdlv.Lemmas.JavaArrays
+import Pdlv.Lemmas.JavaEnumArrays
 import Pdlv.Lemmas.Local
 
 namespace Pdlv
@@ -183,7 +184,28 @@ theorem ownWidth_static : ∀ (is : Items) (w : Nat), Java.decWfItems2 is = true
           | some _ => simp [Java.decWfItems2] at hw
         | dynamic => simp [Java.decWfItems2] at hw
         | unknown => simp [Java.decWfItems2] at hw
-      | enumTy _ _ => simp [Java.decWfItems2] at hw
+      | enumTy nm e =>
+        cases ew with
+        | static eb =>
+          cases pad with
+          | none =>
+            cases shape with
+            | static cnt =>
+              simp only [Java.decWfItems2, Bool.and_eq_true, Bool.or_eq_true, beq_iff_eq] at hw
+              simp only [ownWidth, Option.map_eq_some_iff] at h
+              obtain ⟨w', hw', rfl⟩ := h
+              obtain ⟨n, hn, rfl, hl⟩ := ownWidth_static r w' hw.2 hw'
+              obtain ⟨⟨hws, heb⟩, _⟩ := hw
+              subst heb
+              refine ⟨cnt * (e.width / 8) + n, by simp [staticItems, staticItem, staticTy, hn], ?_,
+                by simp [localWfItems, localWfItem, localWfTy, staticTy, hl]⟩
+              rcases hws with ((h8 | h8) | h8) | h8 <;> rw [h8] <;> omega
+            | countField => simp [ownWidth] at h
+            | sizeField => simp [ownWidth] at h
+            | unknown => simp [ownWidth] at h
+          | some _ => simp [Java.decWfItems2] at hw
+        | dynamic => simp [Java.decWfItems2] at hw
+        | unknown => simp [Java.decWfItems2] at hw
       | struct _ _ => simp [Java.decWfItems2] at hw
       | custom _ _ => simp [Java.decWfItems2] at hw
 
